@@ -60,6 +60,22 @@ PROPS["C02"] = dict(functions=_UNIT_ALG + _QTY_ALG + [Q + "Quantity.__new__"],
                     standins=["C02"], frame=["_op_cache"])
 PROPS["C17"] = dict(functions=_UNIT_ALG + _QTY_ALG, standins=["C17"],
                     frame=["_op_cache", "_TERM_UNIT_MAP.register_item"])
+PROPS["C14"] = dict(
+    functions=[CV + "TableConverter._get_factor", CV + "Converter.__call__",
+               CV + "TableConverter.__init__", Q + "Quantity.equiv_amount",
+               Q + "Quantity.convert", Q + "Quantity.__eq__",
+               Q + "Quantity._compare"],
+    standins=["C14"])
+PROPS["C12"] = dict(
+    functions=[Q + "QuantityMeta.register_converter",
+               Q + "QuantityMeta.remove_converter",
+               MN + "MoneyMeta.register_converter",
+               MN + "MoneyMeta.remove_converter",
+               MN + "MoneyConverter.__enter__", MN + "MoneyConverter.__exit__",
+               Q + "Quantity.equiv_amount"],
+    standins=["C12"],
+    frame=["_converters", "_converters.append", "_converters.remove",
+           "_converters.pop"])
 PROPS["C05"]["functions"] += _UNIT_ALG[:5] + _QTY_ALG
 
 ALL_IDS = [f"C{i:02d}" for i in range(1, 21)]
